@@ -84,6 +84,10 @@ func TestVerifC19(t *testing.T) {
 			lazy := !outage && c.Choose(2, "consumer-reads-only-afterwards") == 1
 			gap := gaps[c.Choose(len(gaps), "gap")]
 			n := 1 + c.Choose(maxLen, "history-length")
+			if gap > 0 && n > 3 {
+				c.Outcome("spaced-histories-of-4-not-run") // thorough tier: spaced writes only for histories <= 3
+				return
+			}
 			var ops []c19Op
 			nprefix := 0
 			if blocked {
